@@ -57,6 +57,8 @@ type Contract struct {
 	Results  []string
 	Requires []*Clause
 	Ensures  []*Clause
+	ImplConv []string  // lines whose float->int conversion may be implementation-defined
+	OnPanic  []*Clause // exceptional postconditions (checked where a panic escapes the function)
 	Invs     []*Clause
 	Asserts  []*Clause
 	Assigns  []string
@@ -125,7 +127,7 @@ func newContractSet() *ContractSet {
 	return &ContractSet{Aliases: map[string]string{}, Funcs: map[string]*Contract{}, Ghosts: map[string]*GhostField{}, TypeInvs: map[string][]*TypeInv{}, Consts: map[string]ast.Expr{}, Defines: map[string]*Define{}, Preds: map[string]*Pred{}}
 }
 
-var keywordRe = regexp.MustCompile(`^(alias|assume|boxednonnil|pred|func|extern|interface|ghost|smt|typeinv|const|define|requires|ensures|returns|recovers|mayfail|ghostvar|after|loop|assigns|panics|pure|trusted|at|inline)\b`)
+var keywordRe = regexp.MustCompile(`^(alias|assume|boxednonnil|pred|func|extern|interface|ghost|smt|typeinv|const|define|requires|ensures|onpanic|returns|recovers|mayfail|implconv|ghostvar|after|loop|assigns|panics|pure|trusted|at|inline)\b`)
 
 type rawLine struct {
 	indent int
@@ -324,15 +326,19 @@ func (cs *ContractSet) loadFile(file string, pkgPrefix string) error {
 				return fail("clause outside a contract")
 			}
 			switch kw {
-			case "requires", "ensures":
+			case "requires", "ensures", "onpanic":
 				cl, err := cs.parseClause(kw, rest, l)
 				if err != nil {
 					return err
 				}
-				if kw == "requires" {
+				switch kw {
+				case "requires":
 					cur.Requires = append(cur.Requires, cl)
-				} else {
+				case "ensures":
 					cur.Ensures = append(cur.Ensures, cl)
+				default:
+					// exceptional postcondition: holds when a panic leaves the function
+					cur.OnPanic = append(cur.OnPanic, cl)
 				}
 			case "loop":
 				m := regexp.MustCompile(`^(\d+)\s+invariant\b(.*)$`).FindStringSubmatch(rest)
@@ -432,6 +438,14 @@ func (cs *ContractSet) loadFile(file string, pkgPrefix string) error {
 					return fail("mayfail line \"text\"")
 				}
 				cur.MayFail = append(cur.MayFail, m[1])
+			case "implconv":
+				// implconv line "text": the float->int conversion on that line may be out of range; Go then
+				// yields an implementation-defined value (never a panic): the result is left unconstrained.
+				m := regexp.MustCompile(`^line\s+"([^"]*)"`).FindStringSubmatch(rest)
+				if m == nil {
+					return fail("implconv line \"text\"")
+				}
+				cur.ImplConv = append(cur.ImplConv, m[1])
 			case "returns":
 				e, err := cs.parseExpr(rest)
 				if err != nil {
